@@ -177,6 +177,11 @@ def automaton(ctx, inst, transport, case, final=True):
     for e in inst.ev:
         d, t = e["d"], e["t"]
         if d == "app":
+            if t == "winok" and e["len"] > 0 and (e["eof_sent"] or e["closed"]):
+                # decided under the channel's own lock, independent of any later lock-release race
+                ctx.count("window_grants_after_end_of_stream")
+                once("window wait granted bytes after own EOF/CLOSE (eof_sent=%s, closed=%s)" % (e["eof_sent"], e["closed"]),
+                     "_wait_for_send_window returned %d with the stream already ended" % e["len"])
             if t == "winok" and e["len"] > 0:
                 winok[e["thread"]] = e
             elif t == "eofset" and eofset_n is None:
@@ -502,6 +507,41 @@ def run_kex_case(ctx, case, rng):
         p.close()
 
 
+def run_parked_case(ctx, case, rng):
+    w = 32768
+    role = case["role"]
+    p = pair.Pair(rng=rng, server_kw=dict(default_window_size=w) if role == "c" else {})
+    cm.watch(p.tc, p.rec, "c")
+    cm.watch(p.ts, p.rec, "s")
+    try:
+        if not p.start() or not p.auth():
+            ctx.inconclusive("handshake failed (parked stratum)")
+            return
+        cm.diverge_ids(p, rng)
+        c, s = p.session(window_size=w if role == "s" else None)
+        r = cm.parked_writer_scenario(p, c, s, role, case["api"], case["ender"], case["size"], w)
+        if not r["ok"]:
+            ctx.inconclusive("parked-writer scenario not reached: %s" % r.get("why"))
+            return
+        ctx.count("parked_writer_cases")
+        if r["seen"]["adjust_in_before_reacquire"]:
+            ctx.count("adjust_processed_before_writer_reacquired_lock")
+        x, y = (c, s) if role == "c" else (s, c)
+        do_op(x, "close", 0, p.rec, role)
+        do_op(y, "close", 0, p.rec, "s" if role == "c" else "c")
+        released = pair.wait_for(lambda: p.tc._channels.get(c.get_id()) is None and p.ts._channels.get(s.get_id()) is None
+                                 and p.link.quiescent(0.02), 5, 0.003)
+        final = released or p.wait_quiet(ctx.pick(3.0, 6.0), 30)
+        ev = p.rec.snapshot()
+        for side, tr in (("c", p.tc), ("s", p.ts)):
+            insts, _ = cm.ledger(ev, side)
+            for inst in insts:
+                automaton(ctx, inst, tr, case, final)
+        return True
+    finally:
+        p.close()
+
+
 def do_op_exec(chan, rec, side):
     rec.add(kind="api", side=side, op="exec_command", phase="call", thread=threading.get_ident())
     try:
@@ -515,6 +555,12 @@ def do_op_exec(chan, rec, side):
 def run(ctx):
     cm.install()
     rng = ctx.rng
+    for i in range(ctx.pick(4, 30)):
+        j = i * ctx.nshards + ctx.shard
+        case = dict(kind="parked-writer-then-end-then-adjust", role="cs"[j % 2], ender=("shutdown_write", "close")[j // 2 % 2],
+                    api=("send", "send_stderr", "sendall")[j // 4 % 3], size=(1, 100, 40000)[j % 3])
+        r = ctx.guard(run_parked_case, ctx, case, rng)
+        ctx.case(("c22-parked", repr(case)), sample=case if i == 0 else None, nontrivial=bool(r))
     for i in range(ctx.pick(6, 40)):
         case = gen_kex_case(rng, i * ctx.nshards + ctx.shard)
         r = ctx.guard(run_kex_case, ctx, case, rng)
@@ -539,3 +585,5 @@ def run(ctx):
     ctx.require("closes_handled_during_kex", 20)
     ctx.require("idle_rekeys_after_close", 40)
     ctx.require("kex_cases_run", 30)
+    ctx.require("parked_writer_cases", 24)
+    ctx.require("adjust_processed_before_writer_reacquired_lock", 20)
